@@ -83,7 +83,7 @@ def main():
                      "kind_free_text": "Lean 4 models/specs/theorems (lake project lean/), native model driver, Python correspondence harness driving the real rl4co code"}],
         "checks": checks,
         "not_applicable": na,
-        "notes": "See DESIGN.md. Every check regenerates Generated/Params.lean from /repo, rebuilds the Lean modules of its property, audits axioms, and runs the correspondence.",
+        "notes": "See DESIGN.md. Every check regenerates Generated/*.lean (extracted tokens and translated statements) from /repo's current sources, rebuilds the Lean modules of its property, audits axioms, and runs the correspondence and the Spec oracle on the real code.",
     }
     common.jdump(man, os.path.join(common.VERIF, "MANIFEST.json"))
     print(f"{len(checks)} checks, {len(na)} not_applicable")
